@@ -152,7 +152,9 @@ theorem pushRejected_rel (cfg : ScanCfg) {s s' : Scanner} {a b : Tok} (pos : Nat
         rw [tp, parser_push_langEq cfg.lang t'.parser hab.2.2.1]
         split
         · exact ⟨rfl, by simp [tt], hab⟩
-        · exact setPrev_rel cfg (outside_rel cfg ⟨rfl, tt, tprev⟩ hab) hab
+        · split
+          · exact ⟨rfl, tt, hab⟩
+          · exact setPrev_rel cfg (outside_rel cfg ⟨rfl, tt, tprev⟩ hab) hab
   · simp only [hn, Bool.false_eq_true, if_false]
     exact setPrev_rel cfg (outside_rel cfg hs hab) hab
 
